@@ -25,7 +25,7 @@ inductive Op where
   deriving DecidableEq, Repr, Inhabited
 
 /-- `time.Time`: the zero value (`IsZero`) or an instant in Unix nanoseconds -/
-inductive GoTime where
+inductive FTime where
   | zero
   | at (ns : Int)
   deriving DecidableEq, Repr, Inhabited
